@@ -413,7 +413,8 @@ def setProducer (n : Nat) (v : Nat) : M Unit := do
 
 /-- `Cloner._remap_device_configurations` (`_cloner.py`) with no `None` entries in the map.  Since
     the fix of D350 `clone_node` passes the correspondence of the node's OWN inputs and outputs
-    (`ioMap`), not the cloner's global value map. -/
+    (`ioMap`), and since the fix of D340 that map is completed by the cloner's global value map for
+    spec values that are neither (lookup order: `ioMap` first). -/
 def remapSpec (vm : List (Nat × Nat)) (sp : DevSpec) : DevSpec :=
   match sp.value with
   | none => sp
@@ -435,6 +436,24 @@ def ioMap (ins newIns : List (Option Nat)) (outs newOuts : List Nat) : List (Nat
     | some a, some b => some (a, b)
     | _, _ => none
 
+/-- a spec whose value is neither an input nor an output of its node (`spec.value not in io_map`)
+    nor bound in the cloner's global value map -/
+def specOuter (ns : NodeS) (vm : List (Nat × Nat)) (sp : DevSpec) : Bool :=
+  match sp.value with
+  | none => false
+  | some v => !ns.inputs.contains (some v) && !ns.outputs.contains v && (vm.lookup v).isNone
+
+/-- `clone_node` since the fixes of D340 / D341: a spec on a value outside the node's inputs and
+    outputs follows the global value map; when it is in neither map and outer-scope values are
+    not allowed the clone raises (like an outer-scope node input); with `allow` it is kept.
+    Python raises after the new node object exists (it is detached and dropped by `clone_graph`'s
+    handler); the model raises before allocating the node cell: the abandoned node is garbage in
+    both, and with `allow = false` it consumes no pre-existing value, so nothing observable differs. -/
+def checkSpecs (allow : Bool) (ns : NodeS) (vm : List (Nat × Nat)) : M Unit :=
+  if !allow && ns.dev.any (fun c => c.specs.any (specOuter ns vm)) then
+    raise "sharding spec targets an outer-scope value"
+  else pure ()
+
 /-- `new_node = _core.Node(...)`; `self._created_nodes.append(new_node)` -/
 def allocNode (c : NodeS) : M Nat := do
   let n' ← alloc (.node c)
@@ -452,10 +471,12 @@ def cloneNode (allow : Bool) (rec : Nat → M Nat) (n : Nat) : M Nat := do
   let props ← copyProps ns.props
   let mstore ← copyMeta ns.mstore
   let outs ← cloneOutputs 0 ns.outputs
+  let vm ← getVm
+  checkSpecs allow ns vm
   let n' ← allocNode { name := ns.name, doc := ns.doc, domain := ns.domain, opType := ns.opType,
                        overload := ns.overload, version := ns.version, inputs := newInputs,
                        outputs := outs, attrs := dictOf newAttrs,
-                       dev := remapDev (ioMap ns.inputs newInputs ns.outputs outs) ns.dev,
+                       dev := remapDev (ioMap ns.inputs newInputs ns.outputs outs ++ vm) ns.dev,
                        props := props, mstore := mstore }
   forM' (setProducer n') outs
   addUses n' 0 newInputs
@@ -1758,6 +1779,10 @@ def wNode (w : World) (allow : Bool) (rec : Nat → Sc → WRes Sc) (n : Nat) (A
     (wFold (fun (ka : String × Nat) => wAttr w rec ka.2) ns.attrs A).bind fun A1 =>
     (wDict w ns.props).bind fun _ => (wDict w ns.mstore).bind fun _ =>
     (wFold (wOutput w) ns.outputs A1).bind fun A2 =>
+    (if !allow && ns.dev.any (fun c => c.specs.any fun sp => match sp.value with
+        | none => false
+        | some v => !ns.inputs.contains (some v) && !ns.outputs.contains v && !A2.bound.contains v)
+      then WRes.err (.raised "sharding spec targets an outer-scope value") else WRes.ok ()).bind fun _ =>
     (wPassthrough w A ns.inputs).bind fun _ => .ok { A2 with produced := ns.outputs.reverse ++ A2.produced }
 
 def wAllOutputs (w : World) : List Nat → WRes (List Nat)
